@@ -127,6 +127,9 @@ class SpyDict(dict):
         self.log.append(('set', k, True)); dict.__setitem__(self, k, v)
     def __delitem__(self, k):
         self.log.append(('del', k, True)); dict.__delitem__(self, k)
+    def pop(self, k, *d):
+        if k in self: self.log.append(('del', k, True))
+        return dict.pop(self, k, *d)
 
 
 def canon(v):
@@ -161,8 +164,14 @@ def run_history(history, warm, instrument=False):
         return res
     core.Query._construct_sql_and_arguments = spy
     out = []
-    session = orm.db_session()
-    session.__enter__()
+    objs = {}
+    def enter():
+        # the objects the session-level steps touch are loaded up front, so that a `set` / `delete` step is ONLY a
+        # modification (P[row] would otherwise run a SELECT, which flushes earlier pending changes)
+        se = orm.db_session(); se.__enter__()
+        objs.clear(); objs.update({o.id: o for o in P.select()[:]})
+        return se
+    session = enter()
     try:
         for step in history:
             kind = step[0]
@@ -195,14 +204,14 @@ def run_history(history, warm, instrument=False):
                             obs['fixed'] = sorted((k[1], canon(v)) for k, v in t.fixed_param_values.items())
                             obs['vartypes'] = repr(sorted((k[1], vt_name(v)) for k, v in q._key['vartypes'].items()))
                             obs['translator_id'] = repr((L.strip_ast(t.conditions), L.strip_ast(t.expr_columns) if not isinstance(t.expr_type, core.EntityMeta) else 'entity'))
-                elif kind == 'set': setattr(P[step[1]], step[2], step[3])
+                elif kind == 'set': setattr(objs[step[1]], step[2], step[3])
                 elif kind == 'create': P(a=step[1], r=1, u='n', g=True)
-                elif kind == 'delete': P[step[1]].delete()
+                elif kind == 'delete': objs[step[1]].delete()
                 elif kind == 'flush': orm.flush()
                 elif kind == 'commit': orm.commit()
                 elif kind == 'new_session':
                     session.__exit__(None, None, None)
-                    session = orm.db_session(); session.__enter__()
+                    session = enter()
                 elif kind == 'raw': db.execute(RAW[step[1]])
                 elif kind == 'bulk_delete': orm.select('p for p in P if p.a == x0', {'P': P, 'x0': step[1]}).delete(bulk=True)
             except Exception as ex:
@@ -211,7 +220,7 @@ def run_history(history, warm, instrument=False):
                     session.__exit__(None, None, None)
                 except Exception:
                     pass
-                session = orm.db_session(); session.__enter__()
+                session = enter()
             out.append(obs)
     finally:
         core.Query._construct_sql_and_arguments = orig
@@ -265,18 +274,33 @@ def compare(history, warm, cold):
     return bad
 
 
-def qkey(step):
-    return json.dumps(step[1:4], sort_keys=True)
+def qkey(step, obs=None):
+    """Result-cache key of a query step as the code composes it: the query (text, parameter TYPES, fetch mode) and the
+    ARGUMENTS actually passed to the SQL (obs = the cold-run observation of the step); parameter values that do not reach
+    the SQL are not part of it."""
+    if obs is None or not obs.get('args'): return json.dumps(step[1:4], sort_keys=True)      # nothing was constructed (translation error)
+    types = sorted((k, _tname(v)) for k, v in step[2].items())
+    return json.dumps([step[1], types, step[3], obs.get('fixed'), obs['args'][-1:] ], sort_keys=True)
 
 
-def explain(history, i):
+def _tname(v):
+    if v is None: return 'NoneType'
+    if isinstance(v, bool): return 'bool'
+    if isinstance(v, (list, tuple)): return '(' + ','.join(_tname(x) for x in v) + ')'
+    return type(v).__name__
+
+
+def explain(history, i, cold=None):
     """Which recorded hole of the result cache (if any) makes the model of Model/C05Memo.v predict a stale answer at step i.
     Mirrors sstep with raw_clears = aggr_flushes = false."""
     cache, pending, version = {}, 0, 0
     for j, step in enumerate(history[:i + 1]):
         k = step[0]
+        if k == 'query' and cold and cold[j] and cold[j].get('error') and not cold[j].get('sql'):
+            if j == i: return None
+            continue                              # a query that raises (translation error) neither flushes nor caches
         if k == 'query':
-            q = qkey(step)
+            q = qkey(step, cold[j] if cold else None)
             aggregate = step[3] == 'count'
             if not aggregate:
                 if pending: version += pending; pending = 0; cache = {}
@@ -305,11 +329,11 @@ def explain(history, i):
     return None
 
 
-def classify(history, i):
-    """Finding key for a divergence at step i."""
+def classify(history, i, cold=None):
+    """Finding key for a divergence at step i (cold = observations of the cold run, for the cache keys)."""
     step = history[i]
     if step[0] != 'query': return 'unlisted:non-query-step'
-    k = explain(history, i)
+    k = explain(history, i, cold)
     if k: return k
     kinds = sorted({s[0] for s in history[:i]} - {'query'})
     return 'unlisted:q%d:%s:%s' % (step[1], step[3], '+'.join(kinds) or 'queries-only')
